@@ -122,11 +122,20 @@ def pem_case():
                 lines.append("%s: %s\n" % ("DEK-Info" if v != "dek-name-damaged" else "DEK_Info", dek))
             lines.append("\n")
         lines += [body + "\n", "-----END RSA PRIVATE KEY-----\n"]
+        if ctx.flag("openssh-style-markers"):
+            lines = [l.replace("RSA PRIVATE", "OPENSSH PRIVATE") for l in lines]
+        # a file that stops early: after the BEGIN line, inside the headers, before the END line; or is empty
+        keep = ctx.choice("file-ends-after-line", ["whole file"] + list(range(0, len(lines))))
+        if keep != "whole file":
+            lines = lines[:keep]
+        if ctx.flag("last-line-lacks-its-newline") and lines:
+            lines[-1] = lines[-1].rstrip("\n")
         key = PK.PKey.__new__(PK.PKey)
         import io
         _classify(ctx, lambda: key._read_private_key("RSA", io.StringIO("".join(lines)), password))
     return Case("pem-headers", fn, ["only-SSHException-or-PasswordRequiredException-escapes"],
-                {"header variants": HDR, "bodies": 4, "password": "given or not"})
+                {"header variants": HDR, "bodies": 4, "password": "given or not", "markers": "RSA / OPENSSH",
+                 "truncation": "whole file or cut after any line, last newline optional"})
 
 
 def cases(tier):
